@@ -3,3 +3,7 @@ package main
 func replayGeneric(w *World, r *UnitResult, ob *Obligation) map[string]interface{} {
 	return map[string]interface{}{"confirmed": false, "note": "no replay generator for this obligation shape yet; the solver model is in solver_output"}
 }
+
+func replayBPF(w *World, ob bpfOb) map[string]interface{} {
+	return map[string]interface{}{"confirmed": false, "note": "bpf replay not implemented yet; the solver model (frame bytes) is in solver_output"}
+}
